@@ -109,7 +109,7 @@ def _concretize(case: dict, rng, n_variants: int) -> list[tuple[bytes | None, st
 def run(ctx: Ctx) -> None:
     warnings.filterwarnings("ignore")
     quick = ctx.quick
-    alphabet = Raw('{"0","1","2",".","-"," ","n","d"}') if quick else Raw('{"0","1","2",".","-","+"," ","n","d","r"}')
+    alphabet = Raw('{"0","1","2",".","-"," ","n","d"}') if quick else Raw('{"0","1","2",".","-","+"," ","n","d"}')
     consts = {"MaxLen": 4 if quick else 5, "Alphabet": alphabet}
     invs = ["GridCanonical", "PatchIgnored", "OnlyCanonicalPasses", "UndeclaredNeverChecks"]
     cases = table.enumerate_cases(ctx, "gate", "Semver", constants=consts, invariants=invs)
@@ -134,8 +134,8 @@ def run(ctx: Ctx) -> None:
     # canonical / near-canonical / short ones get the full cross product
     for ci, cj in enumerate(cases):
         case = cj["case"]
-        near = cj["exp"]["canon"] or case["k"] != "str" or len(case["s"]) <= 2 or ci % (7 if quick else 3) == 0
-        variants = _concretize(case, ctx.rng, 3 if (near or not quick) else 1)
+        near = cj["exp"]["canon"] or case["k"] != "str" or len(case["s"]) <= 2 or ci % (7 if quick else 23) == 0
+        variants = _concretize(case, ctx.rng, 3 if near else (1 if quick else 2))
         for mdv, txt in variants:
             md = {} if mdv is None else {world.K_PROTOVER: mdv}
             for sv in (srv_versions if near else ["1.2.0", "10.0.2"]):
@@ -165,7 +165,7 @@ def run(ctx: Ctx) -> None:
                         ctx.violation("RefusedTyped", {"meth": meth, "transport": "socket", "escaped": type(exc).__name__,
                                                        "client": repr(mdv), "srv": sv}, {"exc": repr(exc)})
             # HTTP legs (slower): near cases always, others sampled
-            if near or ci % (31 if quick else 5) == 0:
+            if (near and (quick or ci % 3 == 0)) or ci % (31 if quick else 53) == 0:
                 for sv, client in http.items():
                     server, calls = servers[sv]
                     srv_t = [int(x) for x in sv.split(".")] if sv else []
